@@ -108,7 +108,7 @@ def model_family(rep, tier, seed):
             if [nz(absval.absval(c)) for c in cv["v"]] != [mval(c) for c in cs["consts"]]:
                 tally["constants_differ_from_model"] += 1
         if not (ld.get("reenc", {}).get("r") == "ok" and ld["reenc"].get("eq")):
-            rep.fail(f"C06/reencode/{kinds}", f"{req['stmts']}: re-encoding the decoded program changes the bytes: {ld.get('reenc')}", replay); continue
+            tally["reencode_differs(informational: C07's subject)"] += 1
         want = mval(cs["result"])
         if resp.get("run", {}).get("r") == "err":
             rep.fail(f"C06/must-run/run-error/{kinds}", f"{req['stmts']}: fresh run fails with {resp['run'].get('class')}", replay); continue
@@ -127,6 +127,7 @@ def model_family(rep, tier, seed):
         if len(s) != 1: rep.fail("C06/function-id/not-injective", f"function id {i} stands for several operators {s}", {"ops": sorted(s)})
     rep.cov["model_instruction_stream_differs(informational)"] = tally["instruction_stream_differs_from_model"]
     rep.cov["model_constants_differ(informational)"] = tally["constants_differ_from_model"]
+    rep.cov["model_reencode_differs(informational: C07 subject)"] = tally["reencode_differs(informational: C07's subject)"]
     return t, len(cases), tally["exact"]
 
 MUSTRUN = re.compile(r'^[\s\w\d\.\+\-\*/%\^<>=!&|~\[\];:,()"\']*$')
